@@ -118,11 +118,19 @@ SomeOrderAborts(P, known, res0) ==
 \* The reader-reaches-writer closure is claimed for programs in which the require that justifies a read is made by the
 \* reader itself (well-formed programs and injections into them).  In role-changing programs an intermediate task can
 \* stop requiring the writer later; pie re-validates hidden dependencies only when reader or writer re-executes.
+\* A task without output is a leftover of an aborted execution (C19): it was reset and its dependency list is partial, e.g.
+\* the require of the writer is not recorded yet.  It is executed again before anything that requires it is reused, and
+\* that execution re-establishes or diagnoses the dependency.  A reader that is such a leftover, or that (transitively)
+\* requires one, is therefore not a counterexample to the closure; every other reader must reach the writer.
+Leftover(st) == {t \in DOMAIN st.out : st.out[t] = NONE}
+Justified(st, q, w) ==
+  \/ q = w \/ q \in Leftover(st)
+  \/ LET rs == ReachSet(st, {q}, {}) IN w \in rs \/ rs \cap Leftover(st) # {}
 ClosureViol(P, st) ==
   (IF \A r \in Ress(st) : Cardinality(AllWriters(st, r)) <= 1 THEN {} ELSE {<<"C06", "single_writer">>})
   \cup
   (IF P.fam = "ROLE" \/ \A r \in Ress(st) : LET w == WriterOf(st, r) IN
-        w = 0 \/ \A q \in Range(ReadersOf(st, r)) : q = w \/ Reach(st, q, w)
+        w = 0 \/ \A q \in Range(ReadersOf(st, r)) : Justified(st, q, w)
    THEN {} ELSE {<<"C05", "closure">>})
 
 (***************************************************************************)
